@@ -1,7 +1,7 @@
 (* C01 proofs, part 2: accounting over the trace of writes (partition, counters, order, mate sync). *)
 From Coq Require Import ZArith List Bool Lia Arith Sorted.
 Import ListNotations.
-From SCMO Require Import Lib.Val Model.C01 Proofs.C01.
+From SCMO Require Import Lib.Val Lib.C01Shape Model.C01 Proofs.C01.
 Open Scope Z_scope.
 
 (* ------------------------------------------------------------------ list facts *)
@@ -99,10 +99,11 @@ Qed.
 Definition dflt : strategy := fun _ => Raise [].
 
 Section Loader.
+  Variable sh : shape.
   Variable strats : list strategy.
   Variable rejhdr : read -> str -> hout.
   Variable cfg : config.
-  Hypothesis repaired : c_legacy cfg = false.
+  Hypothesis wf : wf_shape sh = true.
 
 
   Lemma write_target_labels p j recs e :
@@ -212,24 +213,24 @@ Section Loader.
           now rewrite H1'.
   Qed.
 
-  Lemma nth_consumed pairs p : (p < length (consumed cfg pairs))%nat ->
-    nth p (consumed cfg pairs) [] = nth p pairs [] /\ (p < length pairs)%nat.
+  Lemma nth_consumed pairs p : (p < length (consumed sh cfg pairs))%nat ->
+    nth p (consumed sh cfg pairs) [] = nth p pairs [] /\ (p < length pairs)%nat.
   Proof.
-    unfold consumed. destruct (consumed_from_prefix cfg pairs 0) as [k Hk]. rewrite Hk.
+    unfold consumed. destruct (consumed_from_prefix sh cfg pairs 0) as [k Hk]. rewrite Hk.
     rewrite firstn_length. intros Hp. split; [apply nth_firstn_lt|]; lia.
   Qed.
 
   (* PARTITION, event form: in a run that returns, the writes caused by pair p under strategy j are exactly
      the writes of that one step -- nothing of it anywhere else in the trace, nothing written twice *)
   Lemma partition_events pairs p j :
-    res_crashed (loader strats rejhdr cfg pairs) = false ->
-    filter (lab_eqb p j) (res_trace (loader strats rejhdr cfg pairs)) =
-    if (p <? length (consumed cfg pairs))%nat && (j <? length strats)%nat
+    res_crashed (loader sh strats rejhdr cfg pairs) = false ->
+    filter (lab_eqb p j) (res_trace (loader sh strats rejhdr cfg pairs)) =
+    if (p <? length (consumed sh cfg pairs))%nat && (j <? length strats)%nat
     then step_events rejhdr cfg p (nth p pairs []) j (nth j strats dflt) else [].
   Proof.
-    intros Hc. destruct (loader_decl strats rejhdr cfg repaired pairs Hc) as (_ & -> & _ & _).
+    intros Hc. destruct (loader_decl sh strats rejhdr cfg wf pairs Hc) as (_ & -> & _ & _).
     rewrite filter_lab_pairs. cbn [Nat.leb Nat.add]. rewrite Nat.sub_0_r.
-    destruct (p <? length (consumed cfg pairs))%nat eqn:Hp; cbn [andb]; [|reflexivity].
+    destruct (p <? length (consumed sh cfg pairs))%nat eqn:Hp; cbn [andb]; [|reflexivity].
     apply Nat.ltb_lt in Hp. destruct (nth_consumed pairs p Hp) as [-> _].
     rewrite filter_lab_steps. cbn [Nat.leb Nat.add andb]. now rewrite Nat.sub_0_r.
   Qed.
@@ -327,30 +328,30 @@ Section Loader.
   Qed.
 
   Lemma no_crash_step pairs p j :
-    existsb (pair_crash strats rejhdr cfg) (consumed cfg pairs) = false ->
-    (p < length (consumed cfg pairs))%nat -> (j < length strats)%nat ->
+    existsb (pair_crash strats rejhdr cfg) (consumed sh cfg pairs) = false ->
+    (p < length (consumed sh cfg pairs))%nat -> (j < length strats)%nat ->
     step_crash rejhdr cfg (nth p pairs []) (nth j strats dflt) = false.
   Proof.
     intros Hex Hp Hj.
     destruct (nth_consumed pairs p Hp) as [Hn _]. rewrite <- Hn.
-    assert (Hin : In (nth p (consumed cfg pairs) []) (consumed cfg pairs)) by (apply nth_In; assumption).
-    destruct (pair_crash strats rejhdr cfg (nth p (consumed cfg pairs) [])) eqn:Hpc.
-    - assert (existsb (pair_crash strats rejhdr cfg) (consumed cfg pairs) = true)
+    assert (Hin : In (nth p (consumed sh cfg pairs) []) (consumed sh cfg pairs)) by (apply nth_In; assumption).
+    destruct (pair_crash strats rejhdr cfg (nth p (consumed sh cfg pairs) [])) eqn:Hpc.
+    - assert (existsb (pair_crash strats rejhdr cfg) (consumed sh cfg pairs) = true)
         by (apply existsb_exists; eauto). congruence.
     - unfold pair_crash in Hpc.
-      destruct (step_crash rejhdr cfg (nth p (consumed cfg pairs) []) (nth j strats dflt)) eqn:Hsc; [|reflexivity].
-      assert (existsb (step_crash rejhdr cfg (nth p (consumed cfg pairs) [])) strats = true).
+      destruct (step_crash rejhdr cfg (nth p (consumed sh cfg pairs) []) (nth j strats dflt)) eqn:Hsc; [|reflexivity].
+      assert (existsb (step_crash rejhdr cfg (nth p (consumed sh cfg pairs) [])) strats = true).
       { apply existsb_exists. exists (nth j strats dflt). split; [apply nth_In; assumption|assumption]. }
       congruence.
   Qed.
 
   (* PARTITION, counting form *)
   Lemma partition_count pairs (t : bool) p j m :
-    res_crashed (loader strats rejhdr cfg pairs) = false ->
-    (p < length (consumed cfg pairs))%nat -> (j < length strats)%nat ->
+    res_crashed (loader sh strats rejhdr cfg pairs) = false ->
+    (p < length (consumed sh cfg pairs))%nat -> (j < length strats)%nat ->
     step_ok (nth p pairs []) (nth j strats dflt) ->
     (m < (if t then target_width else c_nh cfg))%nat ->
-    count_at (res_trace (loader strats rejhdr cfg pairs)) t p j m =
+    count_at (res_trace (loader sh strats rejhdr cfg pairs)) t p j m =
     if Bool.eqb t (is_accept cfg (nth j strats dflt (nth p pairs []))) && (t || c_rejects cfg) then 1%nat else 0%nat.
   Proof.
     intros Hc Hp Hj Hok Hm. unfold count_at, at_b.
@@ -358,14 +359,14 @@ Section Loader.
     apply Nat.ltb_lt in Hp. apply Nat.ltb_lt in Hj. rewrite Hp, Hj. cbn [andb].
     apply step_count; try assumption.
     apply no_crash_step; [|now apply Nat.ltb_lt|now apply Nat.ltb_lt].
-    now destruct (loader_decl strats rejhdr cfg repaired pairs Hc) as (H & _).
+    now destruct (loader_decl sh strats rejhdr cfg wf pairs Hc) as (H & _).
   Qed.
 
   (* nothing is written for a pair that was not consumed, or under a label that does not exist *)
   Lemma nothing_beyond pairs p j :
-    res_crashed (loader strats rejhdr cfg pairs) = false ->
-    (length (consumed cfg pairs) <= p)%nat \/ (length strats <= j)%nat ->
-    filter (lab_eqb p j) (res_trace (loader strats rejhdr cfg pairs)) = [].
+    res_crashed (loader sh strats rejhdr cfg pairs) = false ->
+    (length (consumed sh cfg pairs) <= p)%nat \/ (length strats <= j)%nat ->
+    filter (lab_eqb p j) (res_trace (loader sh strats rejhdr cfg pairs)) = [].
   Proof.
     intros Hc H. rewrite (partition_events pairs p j Hc).
     destruct H as [H|H].
@@ -412,9 +413,9 @@ Section Loader.
 
   (* what the step of pair p under strategy j wrote, by outcome class *)
   Lemma partition_content pairs p j :
-    res_crashed (loader strats rejhdr cfg pairs) = false ->
-    (p < length (consumed cfg pairs))%nat -> (j < length strats)%nat ->
-    let evs := filter (lab_eqb p j) (res_trace (loader strats rejhdr cfg pairs)) in
+    res_crashed (loader sh strats rejhdr cfg pairs) = false ->
+    (p < length (consumed sh cfg pairs))%nat -> (j < length strats)%nat ->
+    let evs := filter (lab_eqb p j) (res_trace (loader sh strats rejhdr cfg pairs)) in
     match nth j strats dflt (nth p pairs []) with
     | Accept recs => forallb a_ok (touched cfg recs) = true -> evs = write_target cfg p j recs
     | Reject why | Raise why =>
@@ -425,7 +426,7 @@ Section Loader.
   Proof.
     intros Hc Hp Hj evs. subst evs. rewrite (partition_events pairs p j Hc).
     pose proof (no_crash_step pairs p j) as Hn.
-    destruct (loader_decl strats rejhdr cfg repaired pairs Hc) as (Hex & _).
+    destruct (loader_decl sh strats rejhdr cfg wf pairs Hc) as (Hex & _).
     specialize (Hn Hex Hp Hj).
     apply Nat.ltb_lt in Hp. apply Nat.ltb_lt in Hj. rewrite Hp, Hj. cbn [andb].
     unfold step_events, step_crash in *.
